@@ -32,9 +32,9 @@ type Node struct {
 	R      bool // sits in a restricted argument (count / divisor / position): only small or non-zero values may go there
 }
 
-func lit(s string) *Node  { return &Node{K: nLit, S: s} }
-func idx(i int) *Node     { return &Node{K: nIdx, I: i} }
-func key(s string) *Node  { return &Node{K: nKey, S: s} }
+func lit(s string) *Node   { return &Node{K: nLit, S: s} }
+func idx(i int) *Node      { return &Node{K: nIdx, I: i} }
+func key(s string) *Node   { return &Node{K: nKey, S: s} }
 func cat(p ...*Node) *Node { return &Node{K: nCat, A: p} }
 func call(name string, a ...*Node) *Node {
 	return &Node{K: nCall, S: name, A: a}
